@@ -11,6 +11,11 @@
 //	       NewShadowsocksStreamAuthenticator, service.NewPacketHandler; DEFAULT dialer / validator) by a Shadowsocks
 //	       client on loopback; sink sockets on 127.0.0.1, ::1, fd00::2, fe80::..%eth0 and 192.0.2.2; fake DNS.
 //
+//	conc   -in conc.json -table table.json -out trace.ndjson -info info.json -dur 2500ms
+//	       TLC-generated concurrent scenario (AddrPolicyConc): ONE service.NewPacketHandler (DEFAULT validator), two
+//	       packet listeners each served by its own Handle goroutine, two Shadowsocks UDP clients, each with its own
+//	       list of destinations; what the sinks received is recorded as "CSent" events.
+//
 // The driver never judges: TLC (AddrPolicyTrace) decides on the recorded trace.  The sweep compares against the table
 // TLC exported and only reports candidates, which are then confirmed by TLC as "Dec" events.
 package main
@@ -119,6 +124,8 @@ func main() {
 		runSweep(os.Args[2:])
 	case "behave":
 		runBehave(os.Args[2:])
+	case "conc":
+		runConc(os.Args[2:])
 	default:
 		hx.Fatal("unknown mode %s", os.Args[1])
 	}
